@@ -304,14 +304,21 @@ class Setup:
             frag = rng.random() < 0.5
             c["fragmented_streams"] += frag
             hostile.push(data)
-            signal.alarm(30)
+            signal.alarm(12)
             try:
                 sn.settle(fragment=frag)
                 sn.net.do_step(sn.node)
                 sn.settle()
             except Hang:
                 c["hangs"] += 1
-                mon.inconclusive.append("delivery of a %s stream did not finish within 30 s" % kind)
+                if sn.cm.lock.locked() or sn.store.lock.locked():
+                    # not a matter of speed: the single-threaded loop is blocked on a lock that an earlier handler left held
+                    mon.v("lock-left-held-after-hostile-input", "the node's event loop is blocked forever on the %s lock, left held "
+                          "while handling a hostile %s stream built from %s" % (
+                              "chain manager" if sn.cm.lock.locked() else "block store", kind, name), w)
+                    self.dead = True
+                else:
+                    mon.inconclusive.append("delivery of a %s stream did not finish within 30 s" % kind)
                 break
             finally:
                 signal.alarm(0)
@@ -320,6 +327,14 @@ class Setup:
             esc = sn.escaped()
             if esc:
                 mon.v("exception-escaped-event-loop:" + esc[0].split(":")[0], "hostile %s stream (%s): %s" % (kind, name, esc[0][:300]), w)
+            if sn.cm.lock.locked() or sn.store.lock.locked():
+                # between events of the single-threaded loop no lock may be held: the next pool / state / store operation
+                # (from any peer, or the miner thread) would block forever
+                mon.v("lock-left-held-after-hostile-input", "after a hostile %s stream built from %s the %s lock is still held: the "
+                      "node's event loop stops at its next pool or state operation" % (
+                          kind, name, "chain manager" if sn.cm.lock.locked() else "block store"), w)
+                self.dead = True
+                break
             after = self.fingerprint()
             c["fingerprints_compared"] += 1
             if after != before:
@@ -356,6 +371,8 @@ class Setup:
             if len(mon.samples) < 3:
                 mon.samples.append({"kind": kind, "base_frame": name, "bytes": len(data), "head": data[:24].hex(),
                                     "hostile_disconnected": hostile.peer.closed})
+        if getattr(self, "dead", False):
+            return          # the node cannot make progress any more: nothing further can be asked of it
         # the interrupted download of honest peer #1 completes afterwards
         if self.getdata and not self.honest[1].peer.closed:
             rb1 = self.future_blocks[0]
